@@ -305,6 +305,24 @@ func runGrefcount(c *Ctx) {
 									told = true
 								}
 							}
+							// … or the notification loop written in place (reached, however many references there are)
+							if callsField(b, refcb) {
+								told = true
+							}
+							if b.Kind == core.KRange {
+								if rs, ok := b.Node.(*ast.RangeStmt); ok {
+									if fv := fieldVar(rs.X, b.Frame); fv != nil && core.FieldName(fv) == "refcount.RefCount.refs" {
+										ast.Inspect(rs.Body, func(n ast.Node) bool {
+											if call, ok := n.(*ast.CallExpr); ok {
+												if cf := fieldVar(call.Fun, b.Frame); cf != nil && core.FieldName(cf) == refcb {
+													told = true
+												}
+											}
+											return true
+										})
+									}
+								}
+							}
 						}
 						if assignsField(b, "refcount.RefCount.valueErr", "nil") {
 							errGone = true
@@ -647,7 +665,14 @@ func runGrefcount(c *Ctx) {
 						}
 					}
 					if !handsBack {
-						a.note("R12", name+"/reference-released-or-handed-back", ev.Pos, !released,
+						// a release deferred until after the return counts
+						relAfter := released
+						for _, b := range p.Events[i+1:] {
+							if (b.Kind == core.KCall || b.Kind == core.KEnter) && b.Callee != nil && core.FuncName(b.Callee) == "refcount.(*Ref).Release" {
+								relAfter = true
+							}
+						}
+						a.note("R12", name+"/reference-released-or-handed-back", ev.Pos, !relAfter,
 							"a return that hands the caller neither the reference nor a release function has released the reference",
 							"the function returns without handing back the reference (or a release function) on a path that did not release it: the reference can never be dropped and the value is held for ever", p)
 					}
@@ -762,7 +787,38 @@ func runGrefcount(c *Ctx) {
 							if cnt == nil || snap == nil {
 								continue
 							}
-							if d, ok := g.defs[i][snap]; ok && (d.expr != nil && identVar(d.expr, d.fr) == cnt || d.alias != nil && d.alias == cnt) && readsShared(c, pair[0], ev.Frame) {
+							// the snapshot may have come through a closure parameter and through the result of a
+							// sampling closure walked in place
+							fromCounter := func() bool {
+								v, at := snap, i
+								if av := aliasOf(p, ev, pair[1]); av != nil {
+									v = av
+								}
+								for depth := 0; depth < 4 && v != nil; depth++ {
+									if d, ok := g.defs[at][v]; ok && (d.expr != nil && identVar(d.expr, d.fr) == cnt || d.alias != nil && d.alias == cnt) {
+										return true
+									}
+									// assigned from the result of an inlined call: continue with the returned variable
+									next := (*types.Var)(nil)
+									for j := at - 1; j >= 0 && next == nil; j-- {
+										b := p.Events[j]
+										if b.Kind == core.KAssign && !b.FieldInit && b.RetEv != nil && identVar(b.Lhs, b.Frame) == v {
+											if _, rv := retResult(b.RetEv, b.RhsIdx); rv != nil {
+												for k := j; k >= 0; k-- {
+													if p.Events[k] == b.RetEv {
+														next, at = rv, k
+														break
+													}
+												}
+											}
+											break
+										}
+									}
+									v = next
+								}
+								return false
+							}
+							if fromCounter() && readsShared(c, pair[0], ev.Frame) {
 								if fv := identVar(ev.Lhs, ev.Frame); fv != nil {
 									genFlag, sameIdx = fv, i
 								}
